@@ -1,7 +1,9 @@
 (** C10 — correspondence cases.
 
-    A case = one call of the geometry library on inputs given as IEEE-754 binary64 bit patterns
-    ([Z]), together with what the Rust code returned (kind + coordinates, again as bit patterns).
+    A case = one call of the geometry library on binary64 inputs, together with what the Rust code
+    returned (kind + coordinates).  The executor prints bit patterns; the driver writes every value
+    as an exact hexadecimal float literal (a decimal [Z] literal of 19 digits costs Coq 1.3 ms to
+    parse, a float literal 0.09 ms).
 
     [model_check]: the binary64 instance of [Model] (primitive floats, executed by [vm_compute])
     returns the SAME KIND, and every coordinate equal to the implementation's either bit for bit
@@ -48,7 +50,7 @@ Definition f_of_bits (b : Z) : float := SF2Prim (sf_of_bits b).
 Definition eps_bits : Z := 4472406533629990549.
 Definition feps : float := f_of_bits eps_bits.
 
-Definition fpt (x y : Z) : Pt float := mkPt (f_of_bits x) (f_of_bits y).
+Definition fpt (x y : float) : Pt float := mkPt x y.
 
 (** numeric equality: identifies -0 and +0; all NaNs are identified *)
 Definition feqb (x y : float) : bool :=
@@ -60,30 +62,30 @@ Definition fclose (x y : float) : bool :=
   PrimFloat.leb (PrimFloat.abs (PrimFloat.sub x y)) (PrimFloat.mul tol9 (f_max (PrimFloat.abs y) 1%float)).
 
 (** * cases *)
-Inductive lspec := LB (x1 y1 x2 y2 : Z) | LN (a b c : Z).
+Inductive lspec := LB (x1 y1 x2 y2 : float) | LN (a b c : float).
 Inductive obs :=
 | OPanic
 | ONone | OSame
-| OPt (x y : Z)                 (* intersect_ll: Some *)
-| OTouch (x y : Z)              (* circle-line Touch *)
-| OTouchIn (x y : Z) | OTouchOut (x y : Z)
-| OTwo (x1 y1 x2 y2 : Z)        (* Intersect *)
+| OPt (x y : float)                 (* intersect_ll: Some *)
+| OTouch (x y : float)              (* circle-line Touch *)
+| OTouchIn (x y : float) | OTouchOut (x y : float)
+| OTwo (x1 y1 x2 y2 : float)        (* Intersect *)
 | OPos (k : Z)                  (* 0 Inside, 1 Border, 2 Outside *)
 | OBool (b : bool)
-| OLine (a b c : Z).
+| OLine (a b c : float).
 Inductive case :=
 | CLine (l : lspec) (r : obs)
 | CLL (l1 l2 : lspec) (r : obs)
-| CCL (cx cy r0 : Z) (l : lspec) (r : obs)
-| CCC (ax ay ar bx b_y br : Z) (r : obs)
-| CPos (cx cy r0 px py : Z) (r : obs)
-| CCon (l : lspec) (px py : Z) (r : obs).
+| CCL (cx cy r0 : float) (l : lspec) (r : obs)
+| CCC (ax ay ar bx b_y br : float) (r : obs)
+| CPos (cx cy r0 px py : float) (r : obs)
+| CCon (l : lspec) (px py : float) (r : obs).
 
 (** * model side *)
 Definition fline (l : lspec) : Ln float :=
   match l with
   | LB x1 y1 x2 y2 => line_between fops (fpt x1 y1) (fpt x2 y2)
-  | LN a b c => line_new fops (f_of_bits a) (f_of_bits b) (f_of_bits c)
+  | LN a b c => line_new fops a b c
   end.
 
 (** model results, as floats *)
@@ -104,10 +106,10 @@ Definition run_model (c : case) : mres :=
   match c with
   | CLine l _ => MLine (fline l)
   | CLL l1 l2 _ => match intersect_ll fops feps (fline l1) (fline l2) with None => MNone | Some p => MPt p end
-  | CCL cx cy r0 l _ => of_cl (intersect_cl fops feps (mkCirc (fpt cx cy) (f_of_bits r0)) (fline l))
+  | CCL cx cy r0 l _ => of_cl (intersect_cl fops feps (mkCirc (fpt cx cy) r0) (fline l))
   | CCC ax ay ar bx b_y br _ =>
-      of_cc (intersect_cc fops feps (mkCirc (fpt ax ay) (f_of_bits ar)) (mkCirc (fpt bx b_y) (f_of_bits br)))
-  | CPos cx cy r0 px py _ => MPos (of_pos (position fops feps (mkCirc (fpt cx cy) (f_of_bits r0)) (fpt px py)))
+      of_cc (intersect_cc fops feps (mkCirc (fpt ax ay) ar) (mkCirc (fpt bx b_y) br))
+  | CPos cx cy r0 px py _ => MPos (of_pos (position fops feps (mkCirc (fpt cx cy) r0) (fpt px py)))
   | CCon l px py _ => MBool (contains fops feps (fline l) (fpt px py))
   end.
 Definition observed (c : case) : obs :=
@@ -117,7 +119,7 @@ Definition observed (c : case) : obs :=
 
 Section Cmp.
 Variable fe : float -> float -> bool.
-Definition pt_ok (p : Pt float) (x y : Z) : bool := fe (px p) (f_of_bits x) && fe (py p) (f_of_bits y).
+Definition pt_ok (p : Pt float) (x y : float) : bool := fe (px p) x && fe (py p) y.
 Definition res_ok (m : mres) (r : obs) : bool :=
   match m, r with
   | MNone, ONone => true
@@ -129,7 +131,7 @@ Definition res_ok (m : mres) (r : obs) : bool :=
   | MTwo p q, OTwo x1 y1 x2 y2 => pt_ok p x1 y1 && pt_ok q x2 y2
   | MPos k, OPos k' => k =? k'
   | MBool b, OBool b' => Bool.eqb b b'
-  | MLine l, OLine a b c => fe (la l) (f_of_bits a) && fe (lb l) (f_of_bits b) && fe (lc l) (f_of_bits c)
+  | MLine l, OLine a b c => fe (la l) a && fe (lb l) b && fe (lc l) c
   | _, _ => false
   end.
 End Cmp.
@@ -142,8 +144,8 @@ Definition count_exact (l : list case) : Z * Z :=
 
 (** * exact dyadic arithmetic for the specification *)
 Record dy := mkDy { dm : Z; de : Z }.   (* dm * 2^de *)
-Definition dy_of_bits (b : Z) : option dy :=
-  match sf_of_bits b with
+Definition dy_of_bits (x : float) : option dy :=
+  match Prim2SF x with
   | S754_zero _ => Some (mkDy 0 0)
   | S754_finite s m e => Some (mkDy (if s then Zneg m else Zpos m) e)
   | _ => None
@@ -170,7 +172,7 @@ Definition obind {A B} (o : option A) (f : A -> option B) : option B := match o 
 Notation "'do' x <- o ; k" := (obind o (fun x => k)) (at level 200, x pattern, o at level 100, k at level 200).
 
 Definition dpt := (dy * dy)%type.
-Definition dpt_of (x y : Z) : option dpt := do a <- dy_of_bits x; do b <- dy_of_bits y; Some (a, b).
+Definition dpt_of (x y : float) : option dpt := do a <- dy_of_bits x; do b <- dy_of_bits y; Some (a, b).
 Definition dd2 (p q : dpt) : dy := dadd (dsq (dsub (fst p) (fst q))) (dsq (dsub (snd p) (snd q))).
 
 (** exact (unnormalised) line A x + B y + C = 0 *)
@@ -366,10 +368,10 @@ Definition spec_line (l : dline) (o : obs) : bool :=
   | _ => false
   end.
 
-Definition circ_of (cx cy r0 : Z) : option (dpt * dy) :=
+Definition circ_of (cx cy r0 : float) : option (dpt * dy) :=
   do c <- dpt_of cx cy; do r <- dy_of_bits r0; if pt_in c && rad_ok r then Some (c, r) else None.
 Definition line_of (l : lspec) : option dline := if line_in l then dline_of l else None.
-Definition pt_of (x y : Z) : option dpt := do p <- dpt_of x y; if pt_in p then Some p else None.
+Definition pt_of (x y : float) : option dpt := do p <- dpt_of x y; if pt_in p then Some p else None.
 
 (** the case lies inside the quantifier of the property *)
 Definition in_scope (c : case) : bool :=
@@ -403,21 +405,6 @@ Definition spec_check (c : case) : bool :=
       match dline_of l, pt_of px py with Some L, Some p => spec_con L p r | _, _ => false end
   end.
 
-(** what the model computes on the input of a case (for replay files): kind + coordinates as
-    [spec_float] values, and whether the case is inside the quantifier *)
-Inductive shown :=
-| SNone | SSame | SPt (x y : spec_float) | STouch (x y : spec_float) | STouchIn (x y : spec_float)
-| STouchOut (x y : spec_float) | STwo (x1 y1 x2 y2 : spec_float) | SPos (k : Z) | SBool (b : bool)
-| SLine (a b c : spec_float).
-Definition explain (c : case) : shown * bool :=
-  let s p := (Prim2SF (px p), Prim2SF (py p)) in
-  (match run_model c with
-   | MNone => SNone | MSame => SSame
-   | MPt p => SPt (fst (s p)) (snd (s p))
-   | MTouch p => STouch (fst (s p)) (snd (s p))
-   | MTouchIn p => STouchIn (fst (s p)) (snd (s p))
-   | MTouchOut p => STouchOut (fst (s p)) (snd (s p))
-   | MTwo p q => STwo (fst (s p)) (snd (s p)) (fst (s q)) (snd (s q))
-   | MPos k => SPos k | MBool b => SBool b
-   | MLine l => SLine (Prim2SF (la l)) (Prim2SF (lb l)) (Prim2SF (lc l))
-   end, in_scope c).
+(** what the model computes on the input of a case (for replay files), and whether the case is
+    inside the quantifier *)
+Definition explain (c : case) : mres * bool := (run_model c, in_scope c).
